@@ -9,6 +9,7 @@ Recursive calls (nested objects, nested containers) and the array reader/writer 
 """
 from __future__ import annotations
 
+import functools
 import os
 import sys
 
@@ -127,6 +128,12 @@ def pick(ctx, name, options):
         else:
             lo = mid
     return options[lo]
+
+
+def sub(cases, part):
+    """cases of one part of a contract that is split into several Contract objects (same function, disjoint case sets; they verify in parallel)"""
+    i, n = part
+    return list(cases)[i::n]
 
 
 def fresh_dim(ctx, name):
@@ -339,7 +346,11 @@ def equiv(l, o, exp, pre=""):
             add("nested-container:skip-names-are-the-parent's", names_equiv(enc.names, exp.save_names, exp.ctx))
             add("nested-container:skip-types-are-the-parent's", types_equiv(enc.types, exp.save_types))
         if l.payload.get("as_set"):
+            add("container-kind", isinstance(o, (set, frozenset)))
             return out + equiv_as_set(enc.value, o, exp, pre)
+        if enc.value is o:
+            add("decodes-this-value", True)
+            return out
         return out + equiv(enc.value, o, exp, pre)
     if l is o:
         add("same", True)
@@ -445,15 +456,15 @@ def equiv_as_set(items, o, exp, pre):
     out = [(pre + "set:size", B(len(items) == len(o)))]
     rest = list(o)
     for i, x in enumerate(items):
-        hit = None
-        for y in rest:
+        hit = -1
+        for j, y in enumerate(rest):
             es = equiv(x, y, exp)
             if all(z3.is_true(z3.simplify(t)) for _, t in es):
-                hit = y
+                hit = j
                 break
-        out.append((f"{pre}set:elem[{i}]-is-an-original-element", B(hit is not None)))
-        if hit is not None:
-            rest = [y for y in rest if y is not hit]
+        out.append((f"{pre}set:elem[{i}]-is-an-original-element", B(hit >= 0)))
+        if hit >= 0:
+            del rest[hit]
     return out
 
 
@@ -641,12 +652,12 @@ def meta_of(cls):
     return {"version": 1, "class_module": cls.__module__, "class_name": cls.__qualname__}
 
 
-def rsave_setup(ctx):
-    case = pick(ctx, "attr_kind", [c for c in attr_cases() if not c.startswith("root:")])
+def rsave_setup(ctx, part=(0, 1)):
+    case = pick(ctx, "attr_kind", sub([c for c in attr_cases() if not c.startswith("root:")], part))
     a = fresh_name(ctx, "a", Box, distinct_from=["zz_other"])
     v = mk_value(ctx, case)
     w = ctx.fresh("w", "int")
-    obj = mk_obj(Box, [(a, v), ("zz_other", w)])
+    obj = mk_obj(Box, [(a, v), ("zz_other", w)] if second_attribute(case) else [(a, v)])
     names, types = skip_ctx(ctx)
     return NS(self=obj, obj=obj, group=AGroup(), skip_names=names, skip_types=types, compressors=COMP, case=case, a=a, v=v)
 
@@ -706,8 +717,10 @@ def rsave_requires(s):
             ("obj-is-an-AutoSerialize-object", B(isinstance(s.obj, Obj)))]
 
 
-C_RSAVE = Contract(f"{AS}._recursive_save", setup=rsave_setup, requires=rsave_requires, ensures=rsave_ensures, modifies=rsave_modifies,
-                   recursive_by_contract=True)
+N_RSAVE = 2
+C_RSAVES = [Contract(f"{AS}._recursive_save", setup=functools.partial(rsave_setup, part=(i, N_RSAVE)), requires=rsave_requires, ensures=rsave_ensures,
+                     modifies=rsave_modifies, recursive_by_contract=True) for i in range(N_RSAVE)]
+C_RSAVE = C_RSAVES[0]
 
 
 # (kinds whose SAVE already fails at attribute position - npcomplex, rng with non-PCG64 bit generators - are not repeated inside containers)
@@ -738,13 +751,19 @@ def container_cases():
     return out
 
 
+SET_CASES = [("set", ()), ("set", ("int",)), ("set", ("str",)), ("set", ("int", "int")), ("set", ("int", "str")), ("set", ("path",)),
+             ("set", ("tuple:str",)), ("set", ("npfloat", "none"))]
 CONT_CASES = container_cases()
 CONT_CASES_SKIP = [("list", ("obj",)), ("tuple", ("obj",)), ("dict", ("obj",)), ("list", ("int", "obj")), ("dict", ("list:str", "obj")),
                    ("list", ("list:str",)), ("dict", ("dict",)), ("tuple", ("ndarray1", "str")), ("list", ("int", "int"))]
 
 
-def cont_cases():
-    return CONT_CASES_SKIP if MODE["skip"] else CONT_CASES
+def cont_cases(reader=False):
+    """containers handed to _serialize_container; the reader is additionally verified on what the real writer makes of a SET
+    (`_serialize_value`'s set branch + `_serialize_container` of the element list)"""
+    if MODE["skip"]:
+        return CONT_CASES_SKIP
+    return CONT_CASES + (SET_CASES if reader else [])
 
 
 def mk_container(ctx, ct, kinds):
@@ -753,6 +772,8 @@ def mk_container(ctx, ct, kinds):
         return vals
     if ct == "tuple":
         return tuple(vals)
+    if ct == "set":
+        return set(vals)
     keys = []
     for i in range(len(vals)):
         k = fresh_name(ctx, f"key{i}", distinct_from=keys)
@@ -764,8 +785,8 @@ def case_tag(ct, kinds):
     return f"{ct}({','.join(kinds)})"
 
 
-def scont_setup(ctx):
-    ct, kinds = pick(ctx, "container_case", cont_cases())
+def scont_setup(ctx, part=(0, 1)):
+    ct, kinds = pick(ctx, "container_case", sub(cont_cases(), part))
     c = mk_container(ctx, ct, kinds)
     names, types = skip_ctx(ctx)
     return NS(self=mk_obj(Box, []), value=c, group=AGroup(), skip_names=names, skip_types=types, compressors=COMP, case=case_tag(ct, kinds))
@@ -795,13 +816,16 @@ def scont_modifies(ctx, s):
     G = s.group
     if not isinstance(G, AGroup):
         raise OutOfSubset("_serialize_container into a non-abstract group")
+    if ctx.ghost.pop("inline_next_serialize_container", False):
+        run_real(ctx, f"{AS}._serialize_container", [s.self, s.value, G, s.skip_names, s.skip_types, s.compressors], label="set:_serialize_container")
+        return
     if isinstance(s.value, (list, tuple, dict)):
         G.attrs["_container_type"] = type(s.value).__name__
     G.enc = NS(kind="container", value=s.value, names=s.skip_names, types=s.skip_types, compressors=s.compressors)
 
 
 def scont_requires(s):
-    if s.mode == "verify":
+    if s.mode == "verify" or s.ctx.ghost.get("inline_next_serialize_container"):
         return []
     G = s.group
     pre_tags = [k for k in G.attrs.m.keys() if k != "_container_type"]
@@ -809,8 +833,10 @@ def scont_requires(s):
             ("value-is-list/tuple/dict", B(isinstance(s.value, (list, tuple, dict))))]
 
 
-C_SCONT = Contract(f"{AS}._serialize_container", setup=scont_setup, requires=scont_requires, ensures=scont_ensures, modifies=scont_modifies,
-                   recursive_by_contract=True, max_paths=6000)
+N_CONT = 3
+C_SCONTS = [Contract(f"{AS}._serialize_container", setup=functools.partial(scont_setup, part=(i, N_CONT)), requires=scont_requires, ensures=scont_ensures,
+                     modifies=scont_modifies, recursive_by_contract=True, max_paths=6000) for i in range(N_CONT)]
+C_SCONT = C_SCONTS[0]
 
 
 # ------------------------------------------------------------------------------------------------
@@ -818,13 +844,23 @@ C_SCONT = Contract(f"{AS}._serialize_container", setup=scont_setup, requires=sco
 # ------------------------------------------------------------------------------------------------
 
 
-def dcont_setup(ctx):
-    ct, kinds = pick(ctx, "container_case", cont_cases())
+def dcont_setup(ctx, part=(0, 1)):
+    ct, kinds = pick(ctx, "container_case", sub(cont_cases(reader=True), part))
     c = mk_container(ctx, ct, kinds)
     names, types = skip_ctx(ctx)
     G = AGroup()
     tag = case_tag(ct, kinds)
-    run_real(ctx, f"{AS}._serialize_container", [mk_obj(Box, []), c, G, names, types, COMP], label=f"[{tag}]_serialize_container", writer_has_own_contract=True)
+    if ct == "set":
+        # a set reaches the container writer only through _serialize_value's set branch: run that (real) code
+        ctx.ghost["inline_next_serialize_container"] = True
+        P = AGroup()
+        run_real(ctx, f"{AS}._serialize_value", [mk_obj(Box, []), c, P, "s", names, types, COMP], label=f"[{tag}]_serialize_value")
+        G = P.groups.get("s")
+        if G is None:
+            ctx.prove(f"[{tag}]set-written-into-a-sub-group", z3.BoolVal(False), assume_after=False)
+            raise PathEnd("no sub-group")
+    else:
+        run_real(ctx, f"{AS}._serialize_container", [mk_obj(Box, []), c, G, names, types, COMP], label=f"[{tag}]_serialize_container", writer_has_own_contract=True)
     return NS(cls=Box, group=G, orig=c, case=tag, exp=NS(save_names=names, save_types=types, load_names=frozenset(), load_types=(), ctx=ctx))
 
 
@@ -840,16 +876,20 @@ def dcont_requires(s):
     G = s.group
     e = G.enc if isinstance(G, AGroup) else None
     ok = e is not None and e.kind == "container"
-    tag_ok = ok and G.attrs.m.get("_container_type") == type(e.value).__name__
-    return [("group-was-written-by-_serialize_container", B(ok)), ("container-tag-is-the-writer's", B(tag_ok))]
+    tag = G.attrs.m.get("_container_type") if ok else None
+    tag_ok = ok and (tag == type(e.value).__name__ or (tag == "set" and isinstance(e.value, list)))
+    return [("group-was-written-by-_serialize_container", B(ok)), ("container-tag-is-the-writer's-(or-'set'-on-the-element-list-of-a-set)", B(tag_ok))]
 
 
 def dcont_result(ctx, s):
-    return Kind("loaded", rep=None, enc=s.group.enc, load_names=frozenset(), load_types=(), in_container=True)
+    G = s.group
+    as_set = G.attrs.m.get("_container_type") == "set" and isinstance(G.enc.value, list)
+    return Kind("loaded", rep=None, enc=G.enc, load_names=frozenset(), load_types=(), in_container=True, as_set=as_set)
 
 
-C_DCONT = Contract(f"{AS}._deserialize_container", setup=dcont_setup, requires=dcont_requires, ensures=dcont_ensures, result=dcont_result,
-                   recursive_by_contract=True, max_paths=6000)
+C_DCONTS = [Contract(f"{AS}._deserialize_container", setup=functools.partial(dcont_setup, part=(i, N_CONT)), requires=dcont_requires, ensures=dcont_ensures,
+                     result=dcont_result, recursive_by_contract=True, max_paths=6000) for i in range(N_CONT)]
+C_DCONT = C_DCONTS[0]
 
 
 # ------------------------------------------------------------------------------------------------
@@ -862,19 +902,24 @@ ROOT_CASES = ["root:int", "root:ndarray1", "root:obj"]
 
 def attr_cases():
     if MODE["skip"]:
-        return ["int", "str", "path", "ndarray1", "tensor", "module", "list:str", "dict", "obj", "pylogger", "rng:PCG64", "root:int", "root:obj"]
+        return ["int", "obj", "root:int", "root:obj", "str", "path", "ndarray1", "tensor", "module", "list:str", "dict", "pylogger", "rng:PCG64", "obj:module"]
     return ATTR_CASES + ROOT_CASES
 
 
-def rload_setup(ctx):
+def second_attribute(case):
+    """A second attribute (non-interference); in skip mode only for some cases - every further name multiplies the set-membership forks."""
+    return not MODE["skip"] or case in ("int", "obj", "root:int")
+
+
+def rload_setup(ctx, part=(0, 1)):
     """Pre-state: the group that the REAL writer produced for an arbitrary object -
     `_recursive_save` for a nested group, the whole `save` (directory store) for a root group."""
-    case = pick(ctx, "attr_kind", attr_cases())
+    case = pick(ctx, "attr_kind", sub(attr_cases(), part))
     root = case.startswith("root:")
     a = fresh_name(ctx, "a", Box, distinct_from=["zz_other"])
     v = mk_value(ctx, case[5:] if root else case)
     w = ctx.fresh("w", "int")
-    obj = mk_obj(Box, [(a, v), ("zz_other", w)])
+    obj = mk_obj(Box, [(a, v), ("zz_other", w)] if second_attribute(case) else [(a, v)])
     if root:
         # save() normalises `skip` itself; its own contract covers that, here it gets the names as a list
         fs = cm.GhostFS(lazy=False)
@@ -896,7 +941,7 @@ def rload_setup(ctx):
         G = AGroup()
         run_real(ctx, f"{AS}._recursive_save", [obj, obj, G, names, types, COMP], label=f"[{case}]_recursive_save", writer_has_own_contract=True)
     if MODE["skip"]:
-        lnames = cm.fresh_symset(ctx, "S_load", universe=lambda: [a, "zz_other"])
+        lnames = cm.fresh_symset(ctx, "S_load", universe=lambda: [a, "zz_other"] if second_attribute(case) else [a])
         if root:
             # load() hands the union of the user's names and the persisted ones to the root call (its own contract)
             lnames = lnames | set(names)
@@ -935,8 +980,10 @@ def rload_result(ctx, s):
     return Kind("loaded", rep=None, enc=s.group.enc, load_names=s.skip_names, load_types=s.skip_types)
 
 
-C_RLOAD = Contract(f"{AS}._recursive_load", setup=rload_setup, requires=rload_requires, ensures=rload_ensures, result=rload_result,
-                   recursive_by_contract=True)
+N_RLOAD = 6
+C_RLOADS = [Contract(f"{AS}._recursive_load", setup=functools.partial(rload_setup, part=(i, N_RLOAD)), requires=rload_requires, ensures=rload_ensures,
+                     result=rload_result, recursive_by_contract=True) for i in range(N_RLOAD)]
+C_RLOAD = C_RLOADS[0]
 
 
 # ------------------------------------------------------------------------------------------------
@@ -944,8 +991,16 @@ C_RLOAD = Contract(f"{AS}._recursive_load", setup=rload_setup, requires=rload_re
 # ------------------------------------------------------------------------------------------------
 
 
-def sval_setup(ctx):
-    case = pick(ctx, "value_kind", ["obj", "obj:empty", "obj:sym", "obj:module"])
+SVAL_CASES = ["obj:sym", "obj", "obj:empty", "obj:module"]
+
+
+def sval_cases():
+    # C14 (skip mode): nested objects with concrete attribute names; the arbitrary-name case is C01's (dispatch by duck typing)
+    return ["obj:module", "obj", "obj:empty"] if MODE["skip"] else SVAL_CASES
+
+
+def sval_setup(ctx, part=(0, 1)):
+    case = pick(ctx, "value_kind", sub(sval_cases(), part))
     v = mk_value(ctx, case)
     names, types = skip_ctx(ctx)
     name = fresh_name(ctx, "name", Box)
@@ -959,10 +1014,12 @@ def sval_ensures(s):
     c = f"[{s.case}]"
     sub = next((g for k, g in G.groups.items() if key_same(k, s.name)), None)
     out = [(c + "frame:one-sub-group-under-name-and-nothing-else", B(sub is not None and len(G.groups) == 1 and len(G.arrays) == 0 and len(G.attrs) == 0))]
-    whole = sub is not None and sub.attrs.m.get("_torch_whole_module") is True and s.case == "obj:module" and not MODE["skip"]
-    if whole:
-        # C01: an AutoSerialize object that is a torch module may be pickled whole (torch.save round trip, A6)
-        out.append((c + "module-object-pickled-whole", B("module" in sub.arrays.keys())))
+    whole = [arr for tag, arr in (("_torch_whole_module", "module"), ("_torch_scheduler", "scheduler"), ("_torch_optimizer", "optimizer"))
+             if sub is not None and sub.attrs.m.get(tag) is True]
+    if whole and not MODE["skip"]:
+        # C01: an object that the torch branches pickle whole still round-trips (torch.save/torch.load, A6); C14 does not accept this
+        # (the skip lists cannot reach into a pickle)
+        out.append((c + "object-pickled-whole-under-a-tag-the-loader-unpickles", B(whole[0] in sub.arrays.keys())))
         return out
     e = sub.enc if sub is not None else None
     out.append((c + "nested-AutoSerialize-object-is-written-by-_recursive_save", B(e is not None and e.kind == "obj" and e.value is s.value)))
@@ -973,7 +1030,8 @@ def sval_ensures(s):
     return out
 
 
-C_SVAL = Contract(f"{AS}._serialize_value", setup=sval_setup, ensures=sval_ensures)
+C_SVALS = [Contract(f"{AS}._serialize_value", setup=functools.partial(sval_setup, part=(i, 2)), ensures=sval_ensures) for i in range(2)]
+C_SVAL = C_SVALS[0]
 
 # ------------------------------------------------------------------------------------------------
 # _is_numeric_scalar
@@ -1018,18 +1076,19 @@ def mk_skip(ctx, form, tag):
     return val, names, types
 
 
-def save_setup(ctx):
+def save_setup(ctx, part=(0, 1)):
     fs = cm.GhostFS(lazy=True)
     ctx.ghost["fs"] = fs
     obj = mk_obj(Box, [("x", ctx.fresh("x", "int"))])
     p = StrSym(z3.String(ctx.fresh_name("path")))
     ctx.assume(z3.Length(p.t) >= 1)
-    pathform = pick(ctx, "pathform", ["str", "Path"])
-    mode = pick(ctx, "mode", ["w", "o"])
-    store = pick(ctx, "store", ["auto", "zip", "dir", "bogus"])
+    # C14 varies the skip argument (path type / mode / compression are C01's dimensions and are fixed there to one value)
+    pathform = pick(ctx, "pathform", ["str", "Path"] if not MODE["skip"] else ["str"])
+    mode = pick(ctx, "mode", ["w", "o"] if not MODE["skip"] else ["w"])
+    store = pick(ctx, "store", sub(["auto", "zip", "dir", "bogus"] if not MODE["skip"] else ["zip", "dir"], part))
     form = pick(ctx, "skipform", skip_forms())
     skip, names, types = mk_skip(ctx, form, "save")
-    cform = pick(ctx, "compression", ["none", "int"])
+    cform = pick(ctx, "compression", ["none", "int"] if not MODE["skip"] else ["none"])
     c = None if cform == "none" else ctx.fresh("compression_level", "int")
     path = p if pathform == "str" else cm.mk_kind("path", p=p)
     return NS(self=obj, path=path, param_values={"mode": mode}, store=store, skip=skip, compression_level=c, p=p, names=names, types=types,
@@ -1110,8 +1169,9 @@ def save_ensures(s):
     return out
 
 
-C_SAVE = Contract(f"{AS}.save", setup=save_setup, ensures=save_ensures,
-                  raises={ValueError: save_raises_value, FileExistsError: save_raises_exists}, max_paths=6000)
+C_SAVES = [Contract(f"{AS}.save", setup=functools.partial(save_setup, part=(i, 2)), ensures=save_ensures,
+                    raises={ValueError: save_raises_value, FileExistsError: save_raises_exists}, max_paths=6000) for i in range(2)]
+C_SAVE = C_SAVES[0]
 
 
 def load_setup(ctx):
@@ -1119,7 +1179,7 @@ def load_setup(ctx):
     ctx.ghost["fs"] = fs
     obj = mk_obj(Box, [("x", ctx.fresh("x", "int"))])
     store = pick(ctx, "store", ["zip", "dir"])
-    pathform = pick(ctx, "pathform", ["str", "Path"])
+    pathform = pick(ctx, "pathform", ["str", "Path"] if not MODE["skip"] else ["str"])
     sform = pick(ctx, "save_skipform", skip_forms())
     lform = pick(ctx, "load_skipform", skip_forms())
     sskip, snames, stypes = mk_skip(ctx, sform, "save")
@@ -1150,8 +1210,9 @@ def load_ensures(s):
 
 C_LOAD = Contract(f"{SER}:load", setup=load_setup, ensures=load_ensures)
 
-CONTRACTS = [C_WND, C_WBYTES, C_A2NP, C_READ, C_SVAL, C_RSAVE, C_SCONT, C_DCONT, C_RLOAD, C_ISNUM, C_SAVE, C_LOAD]
-INLINE_AT_CALL_SITES = [C_SVAL]  # verified on its own, but its callers keep interpreting the real body (more precise than a contract)
+# heavy ones first (the pool hands tasks out in order)
+CONTRACTS = C_SVALS + C_RLOADS + C_DCONTS + C_SCONTS + C_RSAVES + C_SAVES + [C_LOAD, C_WND, C_WBYTES, C_A2NP, C_READ, C_ISNUM]
+INLINE_AT_CALL_SITES = C_SVALS  # verified on its own, but its callers keep interpreting the real body (more precise than a contract)
 LEMMAS = []
 BOUNDED = []
 TRUSTED = []
@@ -1227,12 +1288,12 @@ def concrete(desc, dims=None):
         n = int(np.prod(shape)) if shape else 1
         base = (np.arange(n) * 3 + 1).reshape(shape) if shape else np.array(7)
         if dt.startswith("complex"):
-            return (base * (1 + 2j)).astype(dt)
+            return np.asarray(base * (1 + 2j)).astype(dt).reshape(shape)
         if dt.startswith("U") or dt.startswith("S"):
-            return base.astype(dt)
+            return np.asarray(base).astype(dt).reshape(shape)
         if dt == "bool":
-            return (base % 2 == 1)
-        return base.astype(dt)
+            return np.asarray(base % 2 == 1).reshape(shape)
+        return np.asarray(base).astype(dt).reshape(shape)
     if d.startswith("wide:"):
         _, ct, leaf, n = d.split(":")
         vals = [concrete(leaf + f"#{i}") for i in range(int(n))]
@@ -1611,11 +1672,11 @@ def _dims(ev, tag, nd):
     return out
 
 
-def conc_attr(ev):
+def conc_attr(ev, part=(0, 1), writer=False):
     i = ev("attr_kind")
     if i is None:
         return None
-    case = attr_cases()[i]
+    case = sub([c for c in attr_cases() if not (writer and c.startswith("root:"))], part)[i]
     pos = "attr"
     if case.startswith("root:"):
         pos, case = "root", case[5:]
@@ -1623,11 +1684,11 @@ def conc_attr(ev):
     return dict(position=pos, kinds=[case], dims=_dims(ev, "v", nd))
 
 
-def conc_cont(ev):
+def conc_cont(ev, part=(0, 1), reader=False):
     i = ev("container_case")
     if i is None:
         return None
-    ct, kinds = cont_cases()[i]
+    ct, kinds = sub(cont_cases(reader), part)[i]
     return dict(position=ct, kinds=list(kinds))
 
 
@@ -1665,7 +1726,380 @@ def fam_array():
 
 for _c in (C_WND, C_WBYTES, C_A2NP, C_READ):
     _c.concretize, _c.rt, _c.rt_family = conc_array, rt_array, None
-for _c in (C_RSAVE, C_RLOAD):
-    _c.concretize, _c.rt, _c.rt_family = conc_attr, rt_case, None
-for _c in (C_SCONT, C_DCONT):
-    _c.concretize, _c.rt, _c.rt_family = conc_cont, rt_case, None
+for _i, _c in enumerate(C_RSAVES):
+    _c.concretize, _c.rt, _c.rt_family = functools.partial(conc_attr, part=(_i, N_RSAVE), writer=True), rt_case, None
+for _i, _c in enumerate(C_RLOADS):
+    _c.concretize, _c.rt, _c.rt_family = functools.partial(conc_attr, part=(_i, N_RLOAD)), rt_case, None
+for _i in range(N_CONT):
+    C_SCONTS[_i].concretize, C_SCONTS[_i].rt = functools.partial(conc_cont, part=(_i, N_CONT)), rt_case
+    C_DCONTS[_i].concretize, C_DCONTS[_i].rt = functools.partial(conc_cont, part=(_i, N_CONT), reader=True), rt_case
+
+
+def conc_sval(ev, part=(0, 1)):
+    i = ev("value_kind")
+    if i is None:
+        return None
+    case = sub(sval_cases(), part)[i]
+    if case == "obj:sym":
+        n1, n2 = ev("v_f1"), ev("v_f2")
+        if not (isinstance(n1, str) and isinstance(n2, str) and n1.isidentifier() and n2.isidentifier()):
+            return None
+        return dict(position="attr", kinds=[f"inner({n1}=int,{n2}=int)"])
+    return dict(position="attr", kinds=[case])
+
+
+for _i, _c in enumerate(C_SVALS):
+    _c.concretize, _c.rt, _c.rt_family = functools.partial(conc_sval, part=(_i, 2)), rt_case, None
+
+
+# ------------------------------------------------------------------------------------------------
+# skip-list oracle on the real code (C14 replay + bounded stand-in)
+# ------------------------------------------------------------------------------------------------
+
+
+def filter_expected(obj, names, types=()):
+    """What C14 says load must return: `obj` without the attributes named in `names` / instances of `types`,
+    at every level of attribute-nested AutoSerialize objects (a fresh object graph; other values are shared)."""
+    out = type(obj).__new__(type(obj))
+    if isinstance(obj, _torch.nn.Module):
+        _torch.nn.Module.__init__(out)
+    for k, v in vars(obj).items():
+        if isinstance(obj, _torch.nn.Module) and k in vars(out) and k not in ("training",):
+            continue
+        if k in names or (types and isinstance(v, tuple(types))):
+            continue
+        out.__dict__[k] = filter_expected(v, names, types) if isinstance(v, AutoSerialize) else v
+    return out
+
+
+def strip_root_meta(o):
+    for k in ("_autoserialize_skip_names", "_autoserialize_skip_types"):
+        o.__dict__.pop(k, None)
+    return o
+
+
+def skip_fixture(kind="plain"):
+    import numpy as np
+
+    leaf = Leaf(a=3, e=(1, "t"), raw=np.ones(1))
+    mid_cls = NNInner if kind == "module" else Inner
+    mid = mid_cls(a=2, b="x", raw=[1, 2], d=leaf)
+    return Box(a=1, b=np.arange(3.0), raw=np.zeros(2), c=mid, t=_torch.ones(2), s="keep", lst=[1, "x"])
+
+
+SKIP_UNIVERSE = ["a", "b", "raw", "c", "d", "e", "zz_absent"]
+SKIP_TYPES = {"ndarray": lambda: __import__("numpy").ndarray, "Tensor": lambda: _torch.Tensor, "int": lambda: int, "str": lambda: str,
+              "Inner": lambda: Inner, "list": lambda: list}
+
+
+def rt_skip(inp):
+    """C14 on the real code: inp = dict(fixture, save=[names], load=[names], save_types=[type names], store)."""
+    fx = skip_fixture(inp.get("fixture", "plain"))
+    s_save, s_load = list(inp.get("save", [])), list(inp.get("load", []))
+    types = [SKIP_TYPES[t]() for t in inp.get("save_types", [])]
+    store = inp.get("store", "zip")
+    problems = []
+    r, exc = real_roundtrip(fx, store=store, skip_save=s_save + types, skip_load=s_load)
+    if exc:
+        problems += exc
+    else:
+        want = filter_expected(fx, set(s_save) | set(s_load), types)
+        equiv_rt(strip_root_meta(r), want, "", problems)
+        if inp.get("compare_times") and not types:
+            # load-time skipping == save-time skipping == persisted lists honoured by a later load without skip
+            allnames = s_save + s_load
+            r1, e1 = real_roundtrip(fx, store=store, skip_save=allnames, skip_load=[])
+            r2, e2 = real_roundtrip(fx, store=store, skip_save=[], skip_load=allnames)
+            if e1 or e2:
+                problems += e1 + e2
+            else:
+                p2 = []
+                equiv_rt(strip_root_meta(r2), strip_root_meta(r1), "load-time-vs-save-time", p2)
+                problems += [("load-time != save-time: " + k, w, m) for k, w, m in p2]
+    if inp.get("fixture") == "module":
+        problems = [("nested AutoSerialize object that is a torch.nn.Module: skip lists do not reach it" if w.startswith(".c") else k, w, m) for k, w, m in problems]
+    only = inp.get("only_class")
+    if only:
+        problems = [p for p in problems if p[0] == only]
+    return dict(violated=bool(problems), observed="; ".join(f"{k} at {w}: {m}" for k, w, m in problems[:3]) or "ok",
+                expected="skipped names absent at every level, survivors equal to the unskipped load, load-time == save-time", problems=problems)
+
+
+def fam_skip(tier="quick", seed=0):
+    import itertools
+
+    kmax = 2 if tier == "quick" else 4
+    subsets = [list(c) for k in range(kmax + 1) for c in itertools.combinations(SKIP_UNIVERSE, k)]
+    for i, S in enumerate(subsets):
+        store = "zip" if i % 2 == 0 else "dir"
+        yield dict(save=S, load=[], store=store, compare_times=(len(S) <= 2))
+        yield dict(save=[], load=S, store="dir" if store == "zip" else "zip")
+        if len(S) >= 2:
+            yield dict(save=S[: len(S) // 2], load=S[len(S) // 2:], store=store)
+            yield dict(save=S, load=S, store=store)
+    for tn in (["ndarray"], ["Tensor"], ["int"], ["str", "ndarray"], ["Inner"], ["list"]):
+        for store in ("zip", "dir"):
+            yield dict(save=[], load=[], save_types=tn, store=store)
+        yield dict(save=["a"], load=["e"], save_types=tn, store="zip")
+    yield dict(fixture="module", save=["raw"], load=[], store="zip")
+    yield dict(fixture="module", save=[], load=["raw"], store="dir")
+
+
+def _skip_task(inp):
+    return rt_skip(inp)
+
+
+def run_skip_bounded(tier, seed):
+    tasks = list(fam_skip(tier, seed))
+    results = _pool_map(_skip_task, tasks)
+    fails, seen = [], set()
+    for inp, res in zip(tasks, results):
+        for k, w, m in res["problems"]:
+            if k in seen:
+                continue
+            seen.add(k)
+            fails.append(dict(case=dict(inp, only_class=k), klass=k, observed=f"{k} at {w}: {m}", expected=res["expected"]))
+    return dict(evaluations=len(tasks), distinct=len(set(repr(sorted(t.items())) for t in tasks)), failures=fails)
+
+
+def rt_skip_case(inp):
+    """Replay of a symbolic skip-mode case: the small name subsets over the fixture that exercises the case's kind."""
+    fixture = "module" if any("module" in k for k in inp.get("kinds", [])) else "plain"
+    worst = None
+    for S in (["a"], ["raw"], ["c"], ["d"], ["a", "raw"], ["e", "b"], ["zz_absent"], []):
+        for mode in ("save", "load"):
+            res = rt_skip(dict(fixture=fixture, save=S if mode == "save" else [], load=S if mode == "load" else [], store="zip"))
+            if res["violated"]:
+                return dict(violated=True, observed=f"skip={S} at {mode} time: " + res["observed"], expected=res["expected"])
+            worst = res
+    return dict(violated=False, observed="ok", expected=worst["expected"])
+
+
+def rt_any(inp):
+    return rt_skip_case(inp) if MODE["skip"] else rt_case(inp)
+
+
+for _c in C_RSAVES + C_RLOADS + C_SCONTS + C_DCONTS + C_SVALS:
+    _c.rt = rt_any
+
+
+# ------------------------------------------------------------------------------------------------
+# bounded stand-in for C01: equiv(load(save(x)), x) over an enumerated value grammar
+# ------------------------------------------------------------------------------------------------
+
+G_LEAVES = ["none", "bool", "int", "negint", "bigint", "float", "str", "emptystr", "unistr", "path", "relpath", "npint", "npint8", "npuint16", "npfloat",
+            "npfloat64", "npfloat16", "npbool", "ndarray0", "ndarray1", "ndarray2", "ndarray3", "tensor", "tensor_grad", "tensor_int", "tensor0",
+            "tensor_empty", "parameter", "module", "pylogger", "tlogger", "rng:PCG64", "obj", "obj:empty", "inner(c=int,d=ndarray1)"]
+G_EXTRA = ["optimizer", "scheduler", "other", "pycomplex"]
+G_KNOWN_BAD_SAVE = ["npcomplex", "rng:MT19937", "rng:Philox", "rng:SFC64"]
+G_PAIR = ["int", "str", "none", "path", "npfloat", "ndarray1", "tensor", "obj", "list(int,str)"]
+G_SMALL = ["int", "str", "ndarray1"]
+G_HASHABLE = ["int", "str", "none", "path", "npfloat", "tuple(int,str)", "bool"]
+
+
+def grammar(tier="quick"):
+    out = list(G_LEAVES) + list(G_EXTRA)
+    # arrays: every dtype x (0-d, empty shapes, non-empty)
+    for dt in NP_DTYPES + ["U3"]:
+        for shp in ("", "0", "2x0", "0x3x1", "2x3"):
+            out.append(f"ndarray:{dt}:{shp}")
+    # depth 1
+    for T in ("list", "tuple"):
+        out.append(f"{T}()")
+        out += [f"{T}({k})" for k in G_LEAVES if "(" not in k]
+        pair = G_PAIR if (tier != "quick" or T == "list") else G_PAIR[:5]
+        out += [f"{T}({a},{b})" for a in pair for b in pair]
+        out += [f"{T}({a},{b},{c})" for a in G_SMALL for b in G_SMALL for c in G_SMALL if tier != "quick" or T == "list" or a == b or b == c]
+    out.append("dict()")
+    out += [f"dict(k={k})" for k in G_LEAVES if "(" not in k]
+    pair = G_PAIR if tier != "quick" else G_PAIR[:5]
+    out += [f"dict(p={a},q={b})" for a in pair for b in pair]
+    out += [f"dict(p={a},q={b},r={c})" for a in G_SMALL for b in G_SMALL for c in G_SMALL if tier != "quick" or a == b or b == c]
+    out.append("set()")
+    out += [f"set({k})" for k in G_HASHABLE]
+    out += [f"set({a},{b})" for a in G_HASHABLE for b in G_HASHABLE if a < b]
+    out += ["set(int,str,none)", "set(int#1,int#2,int#3)"]
+    # depth 2
+    for T1 in ("list", "tuple", "dict"):
+        for inner in ("list(int,int)", "list(int,str)", "tuple(str)", "tuple()", "list()", "dict(a=int)", "dict()", "set(int)", "set()", "dict(a=ndarray1,b=list(int))",
+                      "obj(x=int)", "inner(c=list(int,str))", "list(ndarray0)", "list(path,str)", "tuple(none,none)", "list(tensor)", "list(rng:PCG64)",
+                      "list(pylogger)", "list(module)", "dict(a=path)"):
+            out.append(f"{T1}({inner})" if T1 != "dict" else f"dict(k={inner})")
+            out.append(f"{T1}({inner},int)" if T1 != "dict" else f"dict(k={inner},j=str)")
+    out += ["obj(x=list(int,str),y=inner(c=ndarray0))", "obj(p=inner(c=dict(a=tuple(int,str))))", "obj(x=set(int))", "inner(c=obj(x=obj(y=int)))",
+            "list(obj(x=list(obj(y=int))))", "obj(x=tuple(list(),dict(),set()))", "list(list(),list())", "list(tuple(int,int),tuple(int,int))",
+            "list(bool,bool)", "list(int,bool,float)", "tuple(npint,npfloat)", "list(npbool,npbool)", "list(int,none)", "list(bigint,int)"]
+    # wide containers (>= 11 elements: two-digit keys)
+    out += ["wide:list:int:11", "wide:list:str:12", "wide:tuple:float:11", "wide:tuple:str:13", "wide:dict:int:12", "wide:dict:ndarray1:11", "wide:list:ndarray1:11",
+            "wide:list:none:11", "wide:list:path:11", "wide:tuple:tensor:11"]
+    return out
+
+
+CONFIGS_ALL = [dict(store=s, compression=c, pathtype=p, mode=m) for s in ("zip", "dir") for c in (None, 0, 4, 9) for p in ("str", "Path") for m in ("w", "o")]
+CONFIGS_QUICK = [dict(store="zip", compression=4, pathtype="str", mode="w"), dict(store="dir", compression=None, pathtype="Path", mode="o"),
+                 dict(store="zip", compression=0, pathtype="Path", mode="o"), dict(store="dir", compression=9, pathtype="str", mode="w")]
+BATCH = 40
+
+
+def _pool_map(fn, tasks):
+    """bounded stand-ins run their real save/load round trips in a few forked worker processes"""
+    import multiprocessing as mp
+
+    _tmpdir()  # parent owns (and finally removes) the scratch root
+    nproc = int(os.environ.get("VERIF_BOUNDED_JOBS", "0") or 0) or min(8, max(1, (os.cpu_count() or 2) // 2))
+    if nproc <= 1 or len(tasks) < 4:
+        return [fn(t) for t in tasks]
+    with mp.get_context("fork").Pool(nproc) as pool:
+        return pool.map(fn, tasks, chunksize=1)
+
+
+def _grammar_task(t):
+    descs, cfg, resave = t
+    return rt_values(dict(values=list(descs), resave=resave, **cfg))
+
+
+def run_grammar_bounded(tier, seed):
+    vals = grammar(tier)
+    batches = [vals[i:i + BATCH] for i in range(0, len(vals), BATCH)]
+    tasks = []
+    cfgs = CONFIGS_QUICK if tier == "quick" else CONFIGS_ALL
+    for bi, b in enumerate(batches):
+        for ci, cfg in enumerate(cfgs):
+            if tier == "quick" and ci != bi % len(cfgs) and bi > 0:
+                continue  # quick: every batch under one of the four configurations (rotating), the first batch under all four
+            tasks.append((tuple(b), cfg, False))
+    # every configuration (both stores x None/0/4/9 x str/Path x w/o) on a mixed batch
+    mixed = ("int", "path", "npfloat", "ndarray2", "ndarray:int16:2x0", "tensor_grad", "list(int,str)", "tuple(int,int)", "dict(p=ndarray1,q=list(int))", "obj")
+    for cfg in CONFIGS_ALL:
+        tasks.append((mixed, cfg, False))
+    # fixed point: save(load(save(x))) reloads to the same graph
+    for b in batches[:: (4 if tier == "quick" else 1)]:
+        tasks.append((tuple(d for d in b if d not in G_KNOWN_BAD_SAVE), dict(store="zip", compression=4, pathtype="str", mode="w"), True))
+    # kinds whose save is known to raise: one value per round trip
+    for d in G_KNOWN_BAD_SAVE + ["list(rng:MT19937)", "dict(k=npcomplex)"]:
+        tasks.append(((d,), dict(store="zip", compression=4, pathtype="str", mode="w"), False))
+    results = _pool_map(_grammar_task, tasks)
+    per_class = {}
+    for (descs, cfg, resave), probs in zip(tasks, results):
+        for k, w, m in probs:
+            idx = None
+            if ".v" in w.split("[")[0]:
+                num = ""
+                for ch in w.split(".v", 1)[1]:
+                    if not ch.isdigit():
+                        break
+                    num += ch
+                idx = int(num) if num else None
+            culprit = [descs[idx]] if idx is not None and idx < len(descs) else list(descs)[:3]
+            per_class.setdefault(k, []).append(dict(case=dict(values=culprit, resave=resave, only_class=k, **cfg), klass=k, observed=f"{k} at {w}: {m}",
+                                                    expected="load(save(x)) has the same class, attribute names and structurally equal values"))
+    return dict(evaluations=len(tasks), distinct=len(set((t[0], repr(t[1]), t[2]) for t in tasks)), values=len(vals),
+                failures=[fs[0] for fs in per_class.values()], classes={k: len(v) for k, v in per_class.items()})
+
+
+def rt_values_replay(inp):
+    probs = rt_values(inp)
+    return dict(violated=bool(probs), observed="; ".join(f"{k} at {w}: {m}" for k, w, m in probs[:3]) or "ok",
+                expected="load(save(x)) has the same class, attribute names and structurally equal values")
+
+
+B_GRAMMAR = Bounded("round trip over the value grammar (real save/load)", run_grammar_bounded,
+                    "all kinds at depth 0; containers of width <=3 at depth <=2 over 9 child classes; containers of 11-13 elements; every numpy dtype x 0-d/empty/non-empty shapes; "
+                    "both stores x compression None/0/4/9 x str/Path x w/o on a mixed batch (quick: 4 configurations elsewhere); fixed point on a third of the batches")
+B_GRAMMAR.rt = rt_values_replay
+B_SKIP = Bounded("skip lists over a 3-level fixture (real save/load)", run_skip_bounded,
+                 "all subsets of <=2 (thorough: <=4) of 7 names (one absent) at save / load / split / both, both stores; 6 type lists; load-time vs save-time comparison")
+B_SKIP.rt = lambda inp: {k: v for k, v in rt_skip(inp).items() if k != "problems"}
+
+BOUNDED = [B_GRAMMAR]
+
+
+# ------------------------------------------------------------------------------------------------
+# property-level lemmas (from the contract statements alone)
+# ------------------------------------------------------------------------------------------------
+
+
+def lemma_fixed_point(ctx):
+    """load(save(.)) = RT.  From the round-trip contract  D(v) => E(RT(v), v)  and  'a value ~ a supported value is supported'
+    (the equivalence keeps kinds inside the supported domain: NumPy scalars -> Python numbers, numeric sequences -> numeric sequences):
+    saving the loaded object again and reloading it is a fixed point up to ~."""
+    Vs = z3.DeclareSort("Value")
+    RT = z3.Function("RT", Vs, Vs)
+    E = z3.Function("equiv", Vs, Vs, z3.BoolSort())
+    D = z3.Function("supported", Vs, z3.BoolSort())
+    v, x, y, z = z3.Consts("v x y z", Vs)
+    hyp = [z3.ForAll([x], z3.Implies(D(x), E(RT(x), x))),
+           z3.ForAll([x, y], z3.Implies(z3.And(E(x, y), D(y)), D(x))),
+           z3.ForAll([x, y, z], z3.Implies(z3.And(E(x, y), E(y, z)), E(x, z))),
+           D(v)]
+    return [("reload-of-resaved-object~loaded-object", hyp, E(RT(RT(v)), RT(v))),
+            ("and~original", hyp, E(RT(RT(v)), v))]
+
+
+def lemma_store_independence(ctx):
+    """save's postcondition describes the written tree by the same term for the zip and the dir store; load maps both to the
+    decoding of that tree: result(zip) ~ x and result(dir) ~ x, hence equal up to ~ (symmetry + transitivity of ~)."""
+    Vs = z3.DeclareSort("Value")
+    E = z3.Function("equiv", Vs, Vs, z3.BoolSort())
+    rz, rd, x0 = z3.Consts("r_zip r_dir x0", Vs)
+    a, b, c = z3.Consts("a b c", Vs)
+    hyp = [E(rz, x0), E(rd, x0), z3.ForAll([a, b], z3.Implies(E(a, b), E(b, a))), z3.ForAll([a, b, c], z3.Implies(z3.And(E(a, b), E(b, c)), E(a, c)))]
+    return [("zip-result~dir-result", hyp, E(rz, rd))]
+
+
+def lemma_skip_algebra(ctx):
+    """present(n) <=> A(n) and not (Ss(n) or Ts(n)) and not Sl(n)  (postcondition of _recursive_load for every level).
+    load-time == save-time == persisted lists, for every name."""
+    St = z3.StringSort()
+    A, S, Ts = (z3.Function(nm, St, z3.BoolSort()) for nm in ("is_attr", "S", "T_match"))
+    n = z3.String("n")
+    F = z3.BoolVal(False)
+
+    def present(ss, ts, sl):
+        return z3.And(A(n), z3.Not(z3.Or(ss, ts)), z3.Not(sl))
+
+    at_save = present(S(n), F, F)             # save(skip=S); load()
+    at_save_eff = present(S(n), F, S(n))      # ... where load merges the persisted list: S_load = {} | S_file
+    at_load = present(F, F, S(n))             # save(); load(skip=S)
+    both = present(S(n), F, S(n))
+    return [("persisted-list-changes-nothing-more", [], at_save == at_save_eff),
+            ("load-time==save-time", [], at_load == at_save),
+            ("both==either", [], both == at_load),
+            ("skipped-name-absent", [S(n)], z3.Not(at_save)),
+            ("unskipped-attribute-present", [A(n), z3.Not(S(n))], at_load),
+            ("type-skipping-removes-instances", [Ts(n)], z3.Not(present(F, Ts(n), F)))]
+
+
+LEMMAS = [Lemma("fixed-point", lemma_fixed_point, uses=["_recursive_load", "_deserialize_container", "save", "load"]),
+          Lemma("store-independence", lemma_store_independence, uses=["save", "load"])]
+LEMMAS_SKIP = [Lemma("skip-set-algebra", lemma_skip_algebra, uses=["_recursive_save", "_recursive_load", "save", "load"])]
+
+TRUSTED = [
+    "A6 zarr model (pyvc/lib/c01_models.py): group = (attrs JSON map, arrays, sub-groups); attrs are a JSON round trip (tuple->list, str keys, non-JSON -> TypeError); "
+    "arrays keep dtype/shape/data; compressors lossless (recorded, otherwise ignored); create_array on an existing key raises; 0-d arrays read with arr[()]",
+    "A6 torch.save/torch.load, dill.dumps/loads, gzip.compress/decompress are inverse pairs on opaque byte tokens (tensor dtype, requires_grad, module/optimizer state ride on that); "
+    "bytes of a user array are not a gzip stream of a dill pickle",
+    "A6 numpy: asarray of numeric scalars holds the same numeric values (A1/A2), frombuffer/tobytes inverse, empty() has unspecified contents; pathlib.Path(str(p)) == p",
+    "A6 ghost file system at whole-tree granularity: os.walk + ZipFile.write(arcname=relpath) archives the directory tree, extractall restores it, "
+    "TemporaryDirectory is removed on exit, LocalStore/zarr.group bind a tree to a directory",
+    "A7 kind facts: isinstance/hasattr of a kind are measured on one real representative (torch.ones(2), Linear(1,1), SGD, StepLR, SummaryWriter, logging.Logger, "
+    "np.float32/int64/bool_/complex64, Path, Generator(PCG64/MT19937/Philox/SFC64), bytes); uniformity within a kind assumed",
+    "iteration over an abstract name set (the delattr loop of _recursive_load) = every known name decided to be a member + one generic further member; iterations independent",
+    "array pair: callers use _write_ndarray/_write_bytes and _read_array_np/_array_to_np through their contracts (the 0-d clause of that contract is a known finding)",
+    "pyvc engine (AST interpreter, path enumeration), z3 string theory for names, cvc5",
+]
+ASSUMPTIONS = [
+    "A1 floats are reals (JSON float round trip, float32->float64 promotion in all-numeric sequences exact); A2 integers in all-numeric sequences within int64 (the property's own restriction)",
+    "attribute names / str dict keys: non-empty, no '/', not one of the reserved metadata names (_autoserialize, _container_type, _sequence_encoding, _torch_iterable_module_type, "
+    "_autoserialize_skip_names/_types), not ending in '.is_path' / '.torch_save' (flag names - a dict key 'x.is_path' IS silently dropped by the real loader), "
+    "not dunder names and not names of class-level attributes (load(skip=['save']) raises AttributeError in the real code); names of one object pairwise distinct",
+    "classes are importable module-level classes (class identity is stored as module + qualname; a nested class cannot be re-imported), plain (non-attrs) classes",
+    "container width unrolled <= 3 (deductive part); depth by induction through the recursive contracts; ndarray ndim <= 3 with symbolic dimensions",
+    "kinds outside the property's list (optimizer, scheduler, dill fallback) are verified at attribute position only; inside containers the real loader returns the raw byte array for dill values",
+    "load-time skipping by TYPE is not specified by the property; the contracts take the load-time type tuple to be the persisted one",
+    "objects inside containers are outside C14's claim (load-time names are not forwarded to them by the real code)",
+]
+EXPLANATION = ("VCs generated at check time from the real source of AutoSerialize.save/_recursive_save/_serialize_value/_serialize_container/_write_ndarray/_write_bytes/"
+               "_array_to_np/_read_array_np/_convert_string_to_path_if_needed/_is_numeric_scalar/_recursive_load/_deserialize_container and module-level load, "
+               "executed symbolically over an abstract zarr group with kind-abstract values and symbolic names; every reader is verified on the state the real writer produced; "
+               "meta-level clauses are decided by path enumeration (backend 'simplify'), name/shape/set clauses by z3")
